@@ -80,8 +80,13 @@ def spec_with_net(spec, net):
         gases.append([mol, prof])
     spec['gases'] = gases
     fill, ratio = spec.get('fill', (['H2', 'He'], 0.17))
-    if len(fill) == 2 and '%s_%s' % (fill[1], fill[0]) in rest:
+    if len(fill) == 2 and not isinstance(ratio, (list, tuple)) and '%s_%s' % (fill[1], fill[0]) in rest:
         ratio = float(take('%s_%s' % (fill[1], fill[0])))
+    elif isinstance(ratio, (list, tuple)):
+        ratio = list(ratio)
+        for i_, g_ in enumerate(fill[1:]):
+            if '%s_%s' % (g_, fill[0]) in rest and i_ < len(ratio):
+                ratio[i_] = float(take('%s_%s' % (g_, fill[0])))
     spec['fill'] = [list(fill), ratio]
     contribs = []
     for c in spec.get('contribs', ['abs']):
